@@ -161,10 +161,12 @@ CHECKS = {
  'C19': dict(
   technique='static analysis: equivariance typing (abstract interpretation with the lattice Inv / Abs / Lin(W) / Dep for translations and Even / Odd / slot for within-tuple swaps) of every value reaching the fitted state',
   text=('Decides two of the five relations: translation invariance of the fitted state (components_, threshold_, bounds_) for '
-        'Covariance, LMNN, ITML, MMC, SDML, LSML, SCML and their supervised variants, and invariance under swapping the two points of '
+        'Covariance, LMNN, ITML, MMC, SDML, LSML, SCML, RCA (with their supervised variants; RCA through the centring certificate of '
+        'C09\'s structural rules) and LFDA (through the formula certificate: its scatter statements equal the pairwise-defined '
+        'scatters), and invariance under swapping the two points of '
         'each training pair (both pairs of a quadruplet) for ITML, MMC, SDML, LSML: data is used only through differences, centred '
         'quantities, covariances, pairwise distances, fitted PCA/LDA directions and index results; an even number of odd factors reaches '
-        'every sink. Translation invariance of NCA, MLKR, LFDA, RCA (algebraic cancellations), rotation equivariance, scaling and '
+        'every sink. Translation invariance of NCA and MLKR (algebraic cancellations), rotation equivariance, scaling and '
         'sample-permutation relations are NOT decided.'),
   note=TB + ' check_input / _prepare_inputs summarised as value identities.'),
  'C20': dict(
